@@ -304,8 +304,15 @@ def valid_spec(draw, element=None, max_nodes=60, max_depth=6, elements=None, avo
 
 # ------------------------------------------------------------------ arbitrary trees
 
+_known_cache = []
+
+
 def _known_names():
-    return sorted(R.node_mappings)
+    """element names as they were when the generators were first used: generation must not depend on state that the
+    code under test might change during a run"""
+    if not _known_cache:
+        _known_cache.append(sorted(R.node_mappings))
+    return _known_cache[0]
 
 
 _unicode = st.text(st.characters(blacklist_categories=("Cs",)), max_size=12)
@@ -317,7 +324,7 @@ _typed_strings = st.sampled_from(["x", "5", "-91", "181", "2020", "2020-13-01", 
                                   "&amp;", "<para>p</para>", "read", "meter", "column", "all",
                                   # format-hostile and edge-case text (message formatting, parsers)
                                   "{", "}", "{}", "{0}", "{x}", "%", "%s", "%d", "%(a)s", "\\", "\x00", "a\nb", "\n", "1\n",
-                                  "٣", "１２", "x" * 300, "12:00\n", "2020-01-01\n", "http://a.b/\n", "'", "\""])
+                                  "٣", "１２", "x" * 300, "²⁰²⁰", "₂₀₂₀", "②①②①", "201¹", "①", "½", "²", "12:00\n", "2020-01-01\n", "http://a.b/\n", "'", "\""])
 _any_content = st.one_of(st.none(), _typed_strings, _unicode)
 
 
